@@ -53,6 +53,8 @@ def sim_case(draw):
     # (a real unitary, the real part of a simulation, integers in a hand-built table)
     return {"modes": m, "inputs": ins, "outputs": outs, "amp": amp, "values": vals,
             "amp_dtype": draw(st.sampled_from(["complex", "complex", "float", "int"])),
+            # memory layout / container of the table the result is built from
+            "layout": draw(st.sampled_from(["C", "C", "F", "T", "strided", "list"])),
             "maps": [list(x) for x in draw(MAPS)]}
 
 
@@ -98,9 +100,25 @@ def run_sim(case):
     else:
         arr = np.array([[float(v) for v in row] for row in case["values"]])
     rtype = "probability_amplitude" if case["amp"] else "probability"
-    r = call("SimulationResult()", SimulationResult, arr.copy(), rtype,
+    layout = case.get("layout", "C")
+    if layout == "F":
+        given = np.array(arr, order="F", copy=True)
+    elif layout == "T":
+        given = np.array(arr.T, order="C", copy=True).T    # a transposed view, as U.T or abs(U.T)**2 would be
+    elif layout == "strided":
+        big = np.zeros((2 * arr.shape[0], 3 * arr.shape[1]), dtype=arr.dtype)
+        big[::2, ::3] = arr
+        given = big[::2, ::3]                            # every other row / third column of a larger table
+    elif layout == "list":
+        given = arr.tolist()
+    else:
+        given = arr.copy()
+    r = call("SimulationResult()", SimulationResult, given, rtype,
              inputs=[lw.State(list(s)) for s in ins], outputs=[lw.State(list(s)) for s in outs])
-    check_sim_indexing(r, ins, outs, arr, "fresh result")
+    check_sim_indexing(r, ins, outs, arr, f"fresh result (table given as {layout})")
+    if isinstance(given, np.ndarray):
+        given[...] = 7                                   # the caller re-uses its buffer for the next run
+        check_sim_indexing(r, ins, outs, arr, "result after the caller overwrote the table it was built from")
     # the reporting methods are read-only: afterwards the result still indexes consistently and holds its data
     import contextlib
     import io
